@@ -2,7 +2,7 @@
 import hashlib
 import random
 
-from vmon import env, plainrun
+from vmon import env, plainrun, preempt
 
 ID = "C01"
 LEVEL = "exploration"
@@ -41,6 +41,7 @@ def gen_cases(tier, seed):
             "perturb": r.choice(["instr", "instr", "instr", "line", "none"]) if W > 1 else "none",
             "cfg": {"out": r.choice(["all", "all", "sinks", "sinks", "struct", "node"])},
         })
+    out.extend(preempt.gen_descs(tier, seed, ID))  # deterministic single-preemption enumeration (vmon/preempt.py)
     for i in range(n // 5):
         # k calls finishing together -> literal -> d, and a slow e -> d: a literal processed twice (lost atomicity of decrement+test)
         # releases d while e is still running. Literals are the only nodes that can be processed twice without failing.
@@ -112,6 +113,8 @@ def contended_joins(ir, H):
 
 
 def run_case(desc):
+    if desc.get("mode") == "preempt1":
+        return preempt.enumerate_case(desc, lambda R, ir: check_history(ir, R.H)[1])
     if desc.get("mode") == "hubrace":
         import time
 
@@ -164,6 +167,8 @@ def finalize(agg, tier):
     c = agg.counters
     if c["joins_last_two_preds_on_different_threads"] < 50:
         reasons.append(f"only {c['joins_last_two_preds_on_different_threads']} joins had their last two predecessors end on different threads (need >= 50)")
+    if c["preempt_holds_others_completed"] < 100:
+        reasons.append("single-preemption enumeration: fewer than 100 holds during which the other predecessors completed their bookkeeping")
     if c["starts_checked"] < 1000:
         reasons.append("fewer than 1000 call starts were checked")
     if len(agg.sets.get("preemption_points_observed", ())) < 20:
